@@ -55,6 +55,20 @@ Definition no_relabel (i : lp_input) (after : list pod) : bool :=
      negb (String.eqb (p_rid b) (i_rid i)) || (String.eqb (p_rid a) (p_rid b) && String.eqb (p_bid a) (p_bid b)))
     (combine (i_pods i) after).
 
+(* last sentence: stale pods are never counted towards a batch they do not belong to.  Only live pods of the new revision
+   carrying (rollout-id, k) use up batch k's budget, so (without a filter) the pass stops only when the live new pods
+   without this release's label run out or every batch up to the current one has its planned number of carriers *)
+Definition budget_only_for_own (i : lp_input) (after : list pod) : bool :=
+  match i_filter i with
+  | FUnordered => true
+  | FNone =>
+    let incs := planned_increments (i_batches i) (i_replicas i) (i_cur i) in
+    let unlabelled := count (fun a => live_new i a && negb (String.eqb (p_rid a) (i_rid i))) after in
+    (unlabelled =? 0) ||
+    forallb (fun ki => let '(k0, inc) := ki in let k := k0 + 1 in
+       inc <=? count (fun a => carries i k a (p_crh a)) after) (number_from 0 incs)
+  end.
+
 Definition in_domain (i : lp_input) : bool := (0 <=? i_cur i) && (i_cur i <? zlen (i_batches i)).
 
 Definition judge (c : case) : list verdict :=
@@ -67,6 +81,7 @@ Definition judge (c : case) : list verdict :=
   [ clause "C12_only_live_new_revision" (only_live_new i after);
     clause "C12_never_over_budget" (never_over_budget i after);
     clause "C12_no_relabel" (no_relabel i after);
+    clause "C12_stale_pods_use_no_budget" (budget_only_for_own i after);
     clause "C12_idempotent" (match ob_second o with Some n => n =? 0 | None => false end) ]).
 
 Definition tag (c : case) : string :=
